@@ -21,12 +21,27 @@ CHECKS = {
  "C06": dict(cat="exploration", tech="stateful property-based testing + counting invariant",
    text="Small Receive Maximum values with QoS 1/2 mixes, ack timing and reconnects; at every completed QoS>0 PUBLISH the number of unresolved publishes sent on that connection must not exceed the CONNACK's Receive Maximum; refused publishes leave nothing on the wire.",
    note="Receive Maximum is constant within one case (one broker). Counting uses the per-connection reading of MQTT 5 section 4.9, which is the weaker (sound) one.", ref="4/C06"),
+ "C07": dict(cat="exploration", tech="property-based testing with a wrap-reaching generator (identifier burn) + in-flight-set invariant",
+   text="Cases fill the send window with long-lived QoS 1/2 publishes and SUBSCRIBE/UNSUBSCRIBE, burn 65535*w+offset identifier allocations through locally refused publishes so the 16-bit counter lands on/around identifiers still in use, then issue new operations; every identifier-bearing packet must carry a non-zero id outside the model's in-flight set.",
+   note="The burn relies on refused requests consuming identifiers (stated in the property); if a refactor changes that the non-trivial count drops instead of an alarm being raised.", ref="4/C07"),
+ "C09": dict(cat="exploration", tech="round-trip against an independent MQTT 5 decoder over generated configurations and requests (property-based)",
+   text="Generated configurations and requests (all property kinds/combinations, subscription options, remaining lengths on the 128/16384/2097152 boundaries, fields > 65535 bytes, too-small arenas); the strict reference decode of the captured bytes must equal the request field by field; unencodable requests fail with zero I/O; encodable ones with ample resources succeed.",
+   note="Property lists are compared as multisets (the API does not fix the position of correlate()).", ref="4/C09"),
  "C11": dict(cat="fault_enumeration", tech="fault injection at generated I/O-call indices + sticky-death invariant",
    text="Faults (read error, EOF, write error, flush error, broker DISCONNECT, local disconnect) at generated I/O calls followed by further API calls on the same handle; after death every op fails fast with Disconnected and the transport poll counter must not move.",
    note="Death triggers are the results listed in the property; NotReady/InvalidRequest/Rejected/resource errors are not triggers.", ref="4/C11"),
+ "C14": dict(cat="exploration", tech="boundary-swept property-based testing with a reference length oracle (both directions)",
+   text="Broker maxima 2..299 (and absent) with request lengths limit-3..limit+3 for every request kind, mandatory acks that may not fit, replay under a smaller later maximum, inbound packets of rx-1/rx/rx+1/huge declared bytes; refused iff the reference-encoded length exceeds the maximum, refusals leave no trace, nothing oversize is ever transmitted, oversize inbound ends the connection cleanly.",
+   note="Maximum of exactly 4 leaves the ack outcome unspecified; behaviour of requests while a retained packet exceeds a later smaller maximum is unspecified beyond 'not transmitted'.", ref="4/C14"),
  "C18": dict(cat="exploration", tech="model-based property testing of handle predicates sampled after every step",
    text="All op kinds, ack orders, reason codes and reconnect patterns; is_pending/is_complete/is_invalidated sampled after every step and compared with the model; failing acks must surface as Rejected(code) from the consuming op.",
    note="Handle-to-packet association is derived from the wire (last matching packet first transmitted during the op that returned the handle).", ref="4/C18"),
+ "C19": dict(cat="exploration", tech="exhaustive table enumeration against an MQTT 5 legality oracle (three-valued)",
+   text="Exhaustive: 4 request contexts x 27 property kinds x boundary values x 4 session states, will x 27 kinds, empty topic lists, dead handle, Maximum QoS x requested QoS x downgrade flag (2562 cells). MUST_REJECT cells: documented error, no I/O, observable state unchanged; MUST_ACCEPT cells: Ok and the property decodes from the wire.",
+   note="Legality table written from the MQTT 5 specification; three cells classes are UNSPECIFIED and not judged (Topic Alias > 0, Server Reference on client DISCONNECT, empty/wildcard Response Topic).", ref="4/C19"),
+ "C20": dict(cat="exploration", tech="property-based round-trip through a second session + reference decoder",
+   text="Generated request publishes (response topic / correlation data of boundary lengths at generated property positions, or absent); reply(), reply()+user properties and reply_owned::<T,C> over 10 capacity pairs are published through a second session and decoded from its wire.",
+   note="At most one Response Topic / Correlation Data per inbound PUBLISH.", ref="4/C20"),
 }
 
 NOT_YET = {}
